@@ -342,7 +342,7 @@ def quat2axang(q: np.ndarray) -> Tuple[np.ndarray, float]:
     if len(q) != 4:
         raise ValueError(f"The quaternion must be a 4-element array, not {len(q)}-element array.")
     # Normalize input quaternion
-    q /= np.linalg.norm(q)
+    q = q/np.linalg.norm(q)
     axis = np.copy(q[1:])
     denom = np.linalg.norm(axis)
     angle = 2.0*np.arctan2(denom, q[0])
